@@ -504,6 +504,8 @@ const nativeRuntime = `//go:build verif
 package %s
 
 import (
+	"crypto/md5"
+	"crypto/sha256"
 	"encoding/json"
 	"fmt"
 	"os"
@@ -613,6 +615,17 @@ func vSameSlice(a, b []byte) bool {
 func vEventCount(sub string) int { fmt.Println("REPLAY-UNSUPPORTED vEventCount"); panic(vStop{}) }
 func vPrint(x any)               { fmt.Println("vPrint:", x) }
 func vSchedule()                 {}
+func vHash(kind string, data []byte, n int) []byte {
+	switch kind {
+	case "sha256":
+		h := sha256.Sum256(data)
+		return h[:n]
+	case "md5":
+		h := md5.Sum(data)
+		return h[:n]
+	}
+	panic("vHash: unknown kind " + kind)
+}
 func vCtxTimeout(ctx interface{ Done() <-chan struct{} }) (int64, bool) { fmt.Println("REPLAY-UNSUPPORTED vCtxTimeout"); panic(vStop{}) }
 `
 
